@@ -120,6 +120,14 @@ func types(tier string) []tcase {
 		st := reflect.StructOf([]reflect.StructField{field("Z", str, `json:"z"`), field("F", k, `json:"f,omitempty"`), {Name: "hidden", Type: i64, PkgPath: "verifharness/props/c15"}, field("A", i64, ``), field("Skip", k, `json:"-"`)})
 		ts = append(ts, tcase{fmt.Sprintf("struct{Z;F %s omitempty;hidden;A;Skip}", k), st, false})
 	}
+	// one type at two positions of one struct, under different tags: a field's schema is a function of ITS type and
+	// tag, whatever its siblings are
+	for _, k := range ks {
+		for vi, tg := range [][3]string{{`json:"p,omitempty"`, `json:"q"`, `json:"r,omitempty"`}, {`json:"p"`, `json:"q,omitempty"`, `json:"r"`}} {
+			st := reflect.StructOf([]reflect.StructField{field("P", k, tg[0]), field("Q", k, tg[1]), field("R", k, tg[2])})
+			ts = append(ts, tcase{fmt.Sprintf("struct{P,Q,R %s; tags variant %d}", k, vi), st, false})
+		}
+	}
 	if tier == "thorough" {
 		// pairs of kinds
 		for _, a := range ks {
@@ -556,7 +564,7 @@ func init() {
 		ID:    "C15",
 		Level: "exploration",
 		Rule: func(tier string) string {
-			return "bounded-exhaustive enumeration of Go struct types (reflect.StructOf + static named/recursive types): 91 field types (every kind incl. unsupported ones, slices/maps/pointers/arrays of them, named struct, registered library and harness types) × 15 tag combinations as single-field structs; each field type in a 5-field struct with unexported/excluded siblings; each behind {struct, *struct, []struct, map[string]struct, []*struct} with omitempty; embedded exported/pointer/unexported structs; a named struct from a package whose import path contains a hyphen (namespace mapping); the same named struct in 2–3 positions; 7 self-referential shapes (own worker case each, 64 MiB stack)" + map[string]string{"thorough": "; all ordered pairs of field types", "quick": ""}[tier] + "; oracle = the documented mapping written as a total specification function (spec.SchemaFor) + structural validity + determinism (value, pointer and typed-nil-pointer call; and a third call after the caller has overwritten everything reachable from the first result) + Schema.Codec returns without panic; plus every history of length<=3 over {generate, register schema 1, register schema 2 for the inner named type} on fresh generic types, each generation compared with the mapping under the registrations in force at that moment; non-trivial = the mapping defines a verdict (schema or must-fail) for the type"
+			return "bounded-exhaustive enumeration of Go struct types (reflect.StructOf + static named/recursive types): 91 field types (every kind incl. unsupported ones, slices/maps/pointers/arrays of them, named struct, registered library and harness types) × 15 tag combinations as single-field structs; each field type in a 5-field struct with unexported/excluded siblings; each field type at three positions of one struct under alternating plain/omitempty tags; each behind {struct, *struct, []struct, map[string]struct, []*struct} with omitempty; embedded exported/pointer/unexported structs; a named struct from a package whose import path contains a hyphen (namespace mapping); the same named struct in 2–3 positions; 7 self-referential shapes (own worker case each, 64 MiB stack)" + map[string]string{"thorough": "; all ordered pairs of field types", "quick": ""}[tier] + "; oracle = the documented mapping written as a total specification function (spec.SchemaFor) + structural validity + determinism (value, pointer and typed-nil-pointer call; and a third call after the caller has overwritten everything reachable from the first result) + Schema.Codec returns without panic; plus every history of length<=3 over {generate, register schema 1, register schema 2 for the inner named type} on fresh generic types, each generation compared with the mapping under the registrations in force at that moment; non-trivial = the mapping defines a verdict (schema or must-fail) for the type"
 		},
 		Assumptions: []string{
 			"Go arrays are not mentioned by the documented mapping: types containing them are exercised (no panic, determinism, validity) but their schema is not judged",
